@@ -222,7 +222,12 @@ def run_case(case):
                     if key in model:
                         obs['failed_overwrites'] = obs.get('failed_overwrites', 0) + 1
                 elif op == 'load':
-                    r = both(lambda p: norm(dict(p.load_checkpoint(pid, tag))))
+                    def load(p):
+                        # (what comes back is looked at before it is read as a mapping: `None` for an absent key is an answer, not a refusal)
+                        got = p.load_checkpoint(pid, tag)
+                        return norm(dict(got)) if isinstance(got, Mapping) else ['NOT-A-BUNDLE', repr(got)]
+
+                    r = both(load)
                     exp = model.get(key)
                     if exp is None:
                         obs['absent_loads'] += 1
